@@ -1,9 +1,13 @@
 #[path = "../../h_zvariant/src/bridge.rs"]
 #[allow(unexpected_cfgs)]
 mod bridge;
+mod c_addr;
 mod c_frame;
+mod c_match;
 mod c_msg;
 mod c_names;
+mod c_serial;
+mod c_xml;
 mod sched;
 
 use vcore::harness::*;
@@ -33,6 +37,27 @@ fn main() {
         "C13" => {
             run.rule = "valid reference-built messages carrying an unknown header field code (10..255, any variant value, any position), an unknown flag bit (0x08..0x80) or both; oracle: Message::from_bytes accepts them and the known fields and flags are intact; non-trivial = every case (the message is valid per the reference parser apart from the unknown part); distinct by hash(bytes)".into();
             vec![spec("msg", 100_000, 3_000_000, 200, c_msg::c13_msg_case), spec("stream", 60_000, 2_000_000, 400, c_frame::c13_stream_case)]
+        }
+        "C21" => {
+            run.rule = "rules built through MatchRule::builder() over all keys (small universes of paths / namespaces so that prefixes and siblings occur) x messages derived from the rule as satisfying instances and then perturbed in 0..2 aspects (type, sender, suffix-extended / case-changed interface and member, sibling / child / parent / absent path, destination unique / well-known / absent, argument of another value or type (ay, variant, object path) or missing, trailing-slash / parent / child path-like arguments as string or object path, namespace boundary cases); oracle = the specification's semantics with the two documented exceptions (well-known sender in the rule, well-known destination in the message are unresolvable and skipped); non-trivial = a perturbed message whose verdict differs from the unperturbed one; distinct by hash(rule, message)".into();
+            vec![spec("semantics", 200_000, 5_000_000, 260, c_match::c21_case)]
+        }
+        "C22" => {
+            run.rule = "rules with all keys built through the API, argument values over {empty, it's, a,b, a=b, backslashes, lone apostrophe, unicode, random}; oracle: a specification-conformant tokenizer/parser (quoting as in the reference bus: '...' literal, \\' outside quotes) reads rule.to_string() back as an equal rule, so does MatchRule::try_from, the conformant print of the rule is parsed by zbus into an equal rule, and parse.print.parse is stable; non-trivial = an argument value containing a special character; distinct by hash(string)".into();
+            vec![spec("strings", 200_000, 5_000_000, 200, c_match::c22_case)]
+        }
+        "C23" => {
+            run.rule = "(a) Address values over the Linux transports (unix path / abstract / dir / tmpdir, unixexec with argv0 and argv, tcp and nonce-tcp with family, bind, noncefile; optional guid) with values over all byte values 1..255 and unicode hosts: parse(format(a)) == a and format(a) is a valid address per the specification's grammar; (b) address strings printed from the specification grammar, with lower/upper-case escapes and escapes of characters that need none, option order permuted: every value zbus holds equals the percent-decoded value; non-trivial = the string contains an escape; distinct by hash(string)".into();
+            vec![spec("values", 150_000, 4_000_000, 120, c_addr::c23_value_case), spec("strings", 150_000, 4_000_000, 120, c_addr::c23_string_case)]
+        }
+        "C34" => {
+            run.rule = "random introspection trees (nodes 3 levels deep, interfaces with methods / signals / properties / annotations, arguments with optional name and direction, generated signatures, annotation and argument-name text containing < > & \" ' ]]> -- and unicode) written as XML with correct escaping, element kinds optionally interleaved as the DTD allows; oracle: the model's accessors equal the generated tree, write -> read yields an equal value, from_reader agrees with try_from; non-trivial = a special character in an attribute and an argument without a name; distinct by hash(document)".into();
+            vec![spec("xml", 60_000, 2_000_000, 400, c_xml::c34_case)]
+        }
+        "C15" => {
+            run.rule = "2..16 OS threads each building 200..3200 messages (PrimaryHeader::new, method calls, signals) behind a barrier, with the process-wide counter placed by the cfg(zbus_verif) hook far from, straddling, just before and at the 32-bit wrap; oracle: no zero, all distinct, per-thread serials advance; the schedule is the operating system's (16 cores), which the harness cannot own; non-trivial = at least 4 threads whose serial ranges interleave, or a run that crosses the wrap; distinct by hash(threads, count, start, first ranges)".into();
+            run.assumptions.push("thread interleaving is left to the OS scheduler: exploration, not enumeration of schedules".into());
+            vec![Spec { threads: 1, ..spec("serials", 500, 30000, 16, c_serial::c15_case) }]
         }
         "C14" => {
             run.rule = "1..5 valid reference-built messages (some carrying fds) concatenated into a stream, delivered to ReadHalf::receive_message through a scripted socket with generated chunking (single chunk, 1-byte drip, message boundaries, random cuts incl. inside a header; an fd-carrying message start is always a chunk start as on a real unix socket) and a generated handshake-leftover prefix (bytes and fds already read); oracle: the same messages, byte-identical, in order, each with its own fds (by inode), strictly increasing receive positions, then end-of-stream; plus headers announcing more than 128 MiB must fail without a body-sized read; non-trivial = at least 2 messages and a cut inside a message or an fd-carrying message; distinct by hash(stream, prefix, chunking)".into();
